@@ -55,14 +55,14 @@ func (c Cond) String() string {
 
 // FuncAn bundles a function with its renderer and canonical conditions.
 type FuncAn struct {
-	W     *World
-	Fn    *ssa.Function
-	R     *Renderer
-	Conds []Cond
-	byIf  map[*ssa.If]int
-	bc    *boundsCtx // lazily built, for linearAlts
+	W      *World
+	Fn     *ssa.Function
+	R      *Renderer
+	Conds  []Cond
+	byIf   map[*ssa.If]int
+	bc     *boundsCtx             // lazily built, for linearAlts
 	oracle func(v ssa.Value) sval // set while a scenario is evaluated (symeval.go): what the scenario decides about v
-	Via   ssa.Instruction // for a helper context made by withNewHelpers: the call in the anchor function through which it is reached
+	Via    ssa.Instruction        // for a helper context made by withNewHelpers: the call in the anchor function through which it is reached
 }
 
 // NewFuncAnCtx renders the parameters of fn as the given caller-side terms.
@@ -78,8 +78,17 @@ func NewFuncAnCtx(w *World, fn *ssa.Function, args []string) *FuncAn {
 
 func NewFuncAn(w *World, fn *ssa.Function) *FuncAn { return newFuncAn(w, fn, nil) }
 
+// NewFuncAnRaw renders calls of helpers as calls (no inlining of their results): for rules that
+// reason about the call itself (which edge of `if helper(…)` was taken).
+func NewFuncAnRaw(w *World, fn *ssa.Function) *FuncAn { return newFuncAnOpt(w, fn, nil, true) }
+
 func newFuncAn(w *World, fn *ssa.Function, subst map[*ssa.Parameter]string) *FuncAn {
+	return newFuncAnOpt(w, fn, subst, false)
+}
+
+func newFuncAnOpt(w *World, fn *ssa.Function, subst map[*ssa.Parameter]string, raw bool) *FuncAn {
 	r := NewRenderer(w, fn)
+	r.noInline = raw
 	r.subst = subst
 	fa := &FuncAn{W: w, Fn: fn, R: r, byIf: map[*ssa.If]int{}}
 	for _, b := range fn.Blocks {
